@@ -8,6 +8,7 @@ step:  {"open": rel [, "text": t]}                      didOpen (text defaults t
        {"change": rel, "text": t}                        didChange (full sync)
        {"request": method, "file": rel, "line": l, "character": c [, "params": {...extra}] , "label": L}
        {"request": method, "params": {...}, "label": L}   (any other request; ${ROOT} / ${URI:rel} are substituted)
+       ... "params_from": {"key": {"label": L0, "path": "0"}}   params[key] := (part of) an earlier raw result
        {"diagnostics": rel, "label": L}                  the last publishDiagnostics received for that file
 Results are normalised: every "uri" below the scenario root becomes the relative path.
 `defect_when` uses the condition language of tools/replayrun.py.  -> {'reproduces': bool|None, 'observed': [...]}"""
@@ -21,7 +22,7 @@ import tempfile
 import time
 
 sys.path.insert(0, os.path.dirname(os.path.abspath(__file__)))
-from replayrun import holds  # noqa: E402
+from replayrun import holds, get  # noqa: E402
 
 VERIF = os.path.dirname(os.path.dirname(os.path.abspath(__file__)))
 TARGET = os.path.join(VERIF, 'build', 'lsp-target')
@@ -169,6 +170,7 @@ def run_one(sc):
         srv.notify('initialized', {})
         srv.drain(until=lambda: any('scan complete' in l.lower() for l in srv.logs), timeout=20)
         versions = {}
+        raw = {}
         for st in sc.get('lsp', []):
             if 'open' in st:
                 rel = st['open']
@@ -189,7 +191,11 @@ def run_one(sc):
                     params.setdefault('textDocument', {'uri': uri_of(os.path.join(root, st['file']))})
                     if 'line' in st:
                         params.setdefault('position', {'line': st['line'], 'character': st.get('character', 0)})
+                for key, src in st.get('params_from', {}).items():
+                    params = dict(params)
+                    params[key] = get(raw.get(src['label']), src.get('path', ''))
                 r = srv.request(st['request'], params)
+                raw[st.get('label')] = r
                 observed.append({'label': st.get('label'), 'op': st['request'], 'value': norm(r, uri_of(root))})
             elif 'diagnostics' in st:
                 u = uri_of(os.path.join(root, st['diagnostics']))
